@@ -47,6 +47,9 @@ type sharedPacketConn struct {
 	closeOnce sync.Once
 
 	readDeadline atomic.Pointer[time.Time]
+	// wroteDeadline records that this wrapper pushed a write deadline down to
+	// the underlying connection, which its siblings share.
+	wroteDeadline atomic.Bool
 }
 
 // newSharedPacketConn increments the shared refcount and returns a wrapper.
@@ -136,6 +139,8 @@ func (s *sharedPacketConn) SetWriteDeadline(t time.Time) error {
 		return io.ErrClosedPipe
 	}
 
+	s.wroteDeadline.Store(!t.IsZero())
+
 	return s.underlying.SetWriteDeadline(t)
 }
 
@@ -165,6 +170,11 @@ func (s *sharedPacketConn) Close() error {
 		s.cancel()
 		if s.refs.Add(-1) <= 0 {
 			err = s.underlying.Close()
+		} else if s.wroteDeadline.Load() {
+			// A deadline this wrapper pushed down (for example to abort its own
+			// I/O before closing) must not outlive it on the connection that
+			// the remaining wrappers keep using.
+			_ = s.underlying.SetWriteDeadline(time.Time{})
 		}
 	})
 	if !fired {
